@@ -117,7 +117,7 @@ def run_detailed(ctx, count, seed, prop, modes=(0,), variant="plain"):
                 nontriv = True
             if hp is not None and prev_hp is not None and hp > prev_hp:
                 res["hpwl_fail"].append((l, "%s: hpwl %d after %d" % (name, hp, prev_hp),
-                                         "half-perimeter wirelength increased from %d to %d at %s" % (prev_hp, hp, name), pol_changed))
+                                         "half-perimeter wirelength increased from %d to %d at %s" % (prev_hp, hp, name), pol_changed, i, name))
             prev_hp = hp if hp is not None else prev_hp
         # multi-row cells / movable macros stay where legalization put them
         rows_h = None
@@ -138,6 +138,7 @@ def run_detailed(ctx, count, seed, prop, modes=(0,), variant="plain"):
         res["polarity_orient_changed_runs"] += pol_changed
         if end[0] == "OK" and end[2] is not None and leg[2] is not None and end[2] < leg[2]:
             res["hpwl_improved_runs"] += 1
+    res["parsed"] = parsed
     _cache[key] = res
     return res
 
